@@ -22,7 +22,7 @@ import (
 	"verif/harness/xt"
 )
 
-const c01Rule = "rapid-generated histories (6..40 operations) over one provider: sso (valid AuthnRequest accepted through the real SSO endpoint), seed (stored request inserted directly: pending or done, with or without a user attached, bindings POST / Redirect / Artifact / empty, any consumer URL incl. empty, ids that are case / blank / percent-encoding twins of each other), complete (login completion for an existing or unknown user), fault (user-info, signing-key - error / nil / no key / no certificate / empty certificate -, or application lookup failure on the next callback) and callback with id expressions {exact, unknown, empty, upper-case twin, blank-padded, percent-encoded twin, prefix, id of another session} placed in the query, the form body, both, or repeated. Invariant after every callback: a Success Response implies that one of the supplied id values names a stored request that is done, and the NameID / attributes are those of that request's user; any other reply has a non-Success status (or is a plain HTTP error) and its decoded layers contain no user marker, no non-empty NameID, no AttributeValue and no SignatureValue; user info is fetched only for a named, done request. Non-trivial: a callback issued while at least one pending and one done request exist. Distinct by (state of the named ids, id expression, placement, binding, fault)."
+const c01Rule = "rapid-generated histories (6..40 operations) over one provider: sso (valid AuthnRequest accepted through the real SSO endpoint), seed (stored request inserted directly: pending or done, with or without a user attached, bindings POST / Redirect / Artifact / empty, any consumer URL incl. empty, ids that are case / blank / percent-encoding twins of each other), complete (login completion for an existing or unknown user), fault (user-info, signing-key - error / nil / no key / no certificate / empty certificate -, or application lookup failure on the next callback) and callback with id expressions {exact, unknown, empty, upper-case twin, blank-padded, percent-encoded twin, '+' / blank / separator twins, prefix, id of another session} placed in the query, the form body, both, or repeated. Invariant after every callback: a Success Response implies that one of the supplied id values names a stored request that is done, and the NameID / attributes are those of that request's user; any other reply has a non-Success status (or is a plain HTTP error) and its decoded layers contain no user marker, no non-empty NameID, no AttributeValue and no SignatureValue; user info is fetched only for a named, done request. Non-trivial: a callback issued while at least one pending and one done request exist. Distinct by (state of the named ids, id expression, placement, binding, fault)."
 
 type C01Op struct {
 	Kind      string             `json:"kind"` // sso | seed | complete | fault | callback
@@ -44,9 +44,9 @@ type C01Case struct {
 	Ops  []C01Op    `json:"ops"`
 }
 
-var c01SeedIDs = []string{"seed-a", "Seed-A", "SEED-A", "seed-a ", " seed-a", "seed%2Da", "seed-b", "seed-b2", "s", "seed/../x", "seed&id=seed-b", "séed"}
+var c01SeedIDs = []string{"seed-a", "Seed-A", "SEED-A", "seed-a ", " seed-a", "seed%2Da", "seed-b", "seed-b2", "s", "seed/../x", "seed&id=seed-b", "séed", "seed+c", "seed+c", "seed+c", "seed c", "seed%20c", "seed+c+d", "seed_c", "seed.c"}
 
-var c01IDExprs = []string{"exact", "exact", "exact", "unknown", "empty", "upper", "lower", "blank-suffix", "blank-prefix", "percent-twin", "prefix", "suffix-junk"}
+var c01IDExprs = []string{"exact", "exact", "exact", "unknown", "empty", "upper", "lower", "blank-suffix", "blank-prefix", "percent-twin", "prefix", "suffix-junk", "plus-as-blank", "plus-as-blank", "blank-as-plus", "sep-twin"}
 var c01Placements = []string{"query", "query", "form", "both-same", "query-ref+form-other", "query-other+form-ref", "repeat-ref-other", "repeat-other-ref"}
 
 func genC01Case(t *rapid.T) C01Case {
@@ -133,6 +133,20 @@ func c01IDValue(expr, id string) string {
 		return ""
 	case "suffix-junk":
 		return id + "\x00x"
+	case "plus-as-blank":
+		// what an id with a '+' becomes when it travels unescaped through form decoding
+		if strings.Contains(id, "+") {
+			return strings.ReplaceAll(id, "+", " ")
+		}
+		return "seed c" // the blank twin of an id that histories often store with a '+' 
+	case "blank-as-plus":
+		if strings.Contains(id, " ") {
+			return strings.ReplaceAll(id, " ", "+")
+		}
+		return id + "+x"
+	case "sep-twin":
+		// other separator characters in place of the id's
+		return strings.NewReplacer("-", "_", "_", "-", "+", "%2B", ".", "-").Replace(id)
 	}
 	return id
 }
